@@ -87,7 +87,8 @@ LStableSnap(lg) == [lg EXCEPT !.usnap = EmptySnap]
 
 LMaybePersist(lg, st, index, term) ==
     LET fui == IF LHasUSnap(lg) THEN lg.usnap.i ELSE lg.offset
-    IN IF index > lg.persisted /\ index < fui /\ StorTermOK(st, index) /\ StorTerm(st, index) = term
+    IN IF index > lg.persisted /\ (index < fui \/ (Ab("MaybePersistBelowFirstUpdate") /\ index = fui))
+          /\ StorTermOK(st, index) /\ StorTerm(st, index) = term
        THEN [lg EXCEPT !.persisted = index] ELSE lg
 LMaybePersistSnapFatal(lg, index) == index > lg.persisted /\ (index > lg.committed \/ index >= lg.offset)
 LMaybePersistSnap(lg, index) == IF index > lg.persisted THEN [lg EXCEPT !.persisted = index] ELSE lg
@@ -117,7 +118,8 @@ LSlice(lg, st, lo, hi, max) ==
 LEntries(lg, st, idx, max) ==
     IF idx > LLast(lg, st) THEN SliceOK(<<>>) ELSE LSlice(lg, st, idx, LLast(lg, st) + 1, max)
 
-LApplyBound(lg) == IF lg.maul = NoLimit THEN lg.committed ELSE Min(lg.committed, lg.persisted + lg.maul)
+LApplyBound(lg) == IF lg.maul = NoLimit \/ Ab("HandOffBoundedByPersisted") THEN lg.committed
+                   ELSE Min(lg.committed, lg.persisted + lg.maul)
 LHasNextEntriesSince(lg, st, since) == LApplyBound(lg) + 1 > Max(since + 1, LFirst(lg, st))
 LNextEntriesSince(lg, st, since, max) ==
     IF LHasNextEntriesSince(lg, st, since)
